@@ -34,12 +34,16 @@
 
 /********** Enabling and disabling for C also *********/
 
+/* Set while a thread-safe overload holds the detector's mutex; only written by the thread that holds it */
+static bool memLeakMutexIsLocked = false;
+
 #if CPPUTEST_USE_MEM_LEAK_DETECTION
 
 class MemLeakScopedMutex
 {
 public:
-    MemLeakScopedMutex() : lock(MemoryLeakWarningPlugin::getGlobalDetector()->getMutex()) { }
+    MemLeakScopedMutex() : lock(MemoryLeakWarningPlugin::getGlobalDetector()->getMutex()) { memLeakMutexIsLocked = true; }
+    ~MemLeakScopedMutex() { memLeakMutexIsLocked = false; }
 private:
     ScopedMutexLock lock;
 };
@@ -544,6 +548,12 @@ public:
 
     virtual void fail(char* fail_string) CPPUTEST_OVERRIDE
     {
+        /* The failure leaves the test by longjmp, so the scoped lock of a thread-safe overload is never destructed:
+         * release the mutex here, otherwise the next allocation or deallocation blocks forever. */
+        if (memLeakMutexIsLocked) {
+            memLeakMutexIsLocked = false;
+            MemoryLeakWarningPlugin::getGlobalDetector()->getMutex()->Unlock();
+        }
         UtestShell* currentTest = UtestShell::getCurrent();
         currentTest->failWith(FailFailure(currentTest, currentTest->getName().asCharString(), currentTest->getLineNumber(), fail_string), UtestShell::getCurrentTestTerminatorWithoutExceptions());
     } // LCOV_EXCL_LINE
